@@ -7,6 +7,7 @@ package main
 import (
 	"verif/harness/core"
 	"verif/harness/monitors/codec"
+	"verif/harness/monitors/idlmon"
 )
 
 var monitors = map[string]func(*core.Child){
@@ -15,6 +16,7 @@ var monitors = map[string]func(*core.Child){
 	"c12": codec.C12,
 	"c13": codec.C13,
 	"c18": codec.C18,
+	"c11": idlmon.C11,
 }
 
 func main() { core.ChildMain(monitors) }
